@@ -935,6 +935,18 @@ int main(int argc, char **argv) {
                 run_cfg(P_LAYOUT, h, sz, 3, 0, 0, 0);
                 if (th && (sz == 0 || sz == 16)) run_cfg(P_LAYOUT, h, sz, 0, 0, 0, 0);
             }
+    /* tables that start with 32 / 64 slots (size hints 17 and 40): whatever is computed from the slot count or the load
+     * limit differs from it by more than one only from 32 slots up (added after a seeded change whose clear() wiped
+     * max_load + 1 slots instead of all of them: equal up to 16 slots) */
+    if (want(only, "layout")) {
+        run_cfg(P_LAYOUT, H_LAST, 17, 3, 0, 0, 0);
+        if (th) {
+            for (int h = 0; h < NHASH; ++h) {
+                if (h != H_LAST) run_cfg(P_LAYOUT, h, 17, 3, 0, 0, 0);
+                run_cfg(P_LAYOUT, h, 40, 3, 0, 0, 0);
+            }
+        }
+    }
     if (th && want(only, "layout6"))
         for (int h = 0; h < NHASH; ++h)
             for (int s = 0; s < 2; ++s) run_cfg(P_LAYOUT6, h, sizes_q[s], 3, 0, 0, 0);
